@@ -18,16 +18,26 @@ LexLess(a, b) ==      \* lexicographic order on equal-length integer tuples
   \E i \in DOMAIN a : a[i] < b[i] /\ \A j \in 1..(i-1) : a[j] = b[j]
 SortTuples(S) == SetToSortSeq(S, LexLess)
 
-\* ---- a query set is a set of <<label, pointlabel, pt>> ; one pt per point label
+\* ---- a query set is a set of <<label, pointlabel, pt>> ; one pt per point label (WellFormedQs; the adversary's
+\* `repoint_query` breaks it)
 PLs(qs) == {q[2] : q \in qs}
 WellFormedQs(qs) == \A q1, q2 \in qs : q1[2] = q2[2] => q1[3] = q2[3]
-PtOf(qs, pl) == (CHOOSE q \in qs : q[2] = pl)[3]
+\* (the entry API keeps the point of the first query of a label in BTreeSet order)
+PtOf(qs, pl) == SortTuples({q \in qs : q[2] = pl})[1][3]
 LabelsAt(qs, pl) == SortInts({q[1] : q \in {x \in qs : x[2] = pl}})
 
-\* query_to_labels_map.into_iter(): point labels ascending; labels ascending inside
+\* query_to_labels_map.into_iter(): keys ascending; labels ascending inside.  For a well-formed query set the two
+\* keyings give the same groups.
+GroupKeys(qs) ==
+  IF BatchGroupsByLabelAndPoint THEN SortTuples({<<q[2], q[3]>> : q \in qs})
+  ELSE LET pls == SortInts(PLs(qs)) IN [k \in DOMAIN pls |-> <<pls[k], PtOf(qs, pls[k])>>]
 Groups(qs) ==
-  LET pls == SortInts(PLs(qs)) IN
-  [k \in DOMAIN pls |-> [pl |-> pls[k], pt |-> PtOf(qs, pls[k]), labels |-> LabelsAt(qs, pls[k])]]
+  LET ks == GroupKeys(qs) IN
+  [k \in DOMAIN ks |->
+     [pl |-> ks[k][1], pt |-> ks[k][2],
+      labels |-> IF BatchGroupsByLabelAndPoint
+                 THEN SortInts({q[1] : q \in {x \in qs : x[2] = ks[k][1] /\ x[3] = ks[k][2]}})
+                 ELSE LabelsAt(qs, ks[k][1])]]
 
 \* evaluation keys are (label, point VALUE): two point labels on one value share a key
 EvalKeys(qs) == {<<q[1], q[3]>> : q \in qs}
